@@ -229,6 +229,12 @@ func c18DvMake(rng *Rng, sqref string, force int) (*xl.DataValidation, string, s
 	types := []xl.DataValidationType{xl.DataValidationTypeCustom, xl.DataValidationTypeDate, xl.DataValidationTypeDecimal, xl.DataValidationTypeTextLength, xl.DataValidationTypeTime, xl.DataValidationTypeWhole}
 	ops := []xl.DataValidationOperator{xl.DataValidationOperatorBetween, xl.DataValidationOperatorEqual, xl.DataValidationOperatorGreaterThan, xl.DataValidationOperatorNotBetween, xl.DataValidationOperatorLessThanOrEqual}
 	switch c := rng.Intn(10); {
+	case force == 3: // witness: a string-literal formula with an embedded (doubled) quote
+		_ = dv.SetRange(`"a""b"`, "1", xl.DataValidationTypeCustom, xl.DataValidationOperatorBetween)
+		want1, want2 = `"a""b"`, "1"
+	case force == 2: // witness: list source on a sheet whose quoted name needs XML escaping
+		dv.SetSqrefDropList("'P&L'!$A$1:$A$3")
+		want1 = "'P&L'!$A$1:$A$3"
 	case force == 0: // witness: a formula that needs XML escaping, passed escaped
 		_ = dv.SetRange("A1&amp;B1", "A1&amp;B1", xl.DataValidationTypeCustom, xl.DataValidationOperatorBetween)
 		want1, want2 = "A1&amp;B1", "A1&amp;B1"
@@ -248,9 +254,6 @@ func c18DvMake(rng *Rng, sqref string, force int) (*xl.DataValidation, string, s
 		a, b := fs[rng.Intn(len(fs))], fs[rng.Intn(len(fs))]
 		_ = dv.SetRange(a, b, types[rng.Intn(len(types))], ops[rng.Intn(len(ops))])
 		want1, want2 = a, b
-	case force == 2: // witness: list source on a sheet whose quoted name needs XML escaping
-		dv.SetSqrefDropList("'P&L'!$A$1:$A$3")
-		want1 = "'P&L'!$A$1:$A$3"
 	case c < 9:
 		s := rng.Pick(c18DvSources)
 		dv.SetSqrefDropList(s)
@@ -330,6 +333,9 @@ func c18DvCase(r *Run, rng *Rng, force int) {
 				cls := ""
 				if (k == "Formula1" || k == "Formula2") && strings.Contains(unhx(strings.TrimPrefix(want[i][k], "s=")), "&") {
 					cls = ":contains-amp"
+				}
+				if wv := unhx(strings.TrimPrefix(want[i][k], "s=")); (k == "Formula1" || k == "Formula2") && strings.HasPrefix(wv, `"`) && strings.Contains(wv[1:], `""`) {
+					cls = ":string-literal-doubled-quote"
 				}
 				failp("dv:"+k+cls, phase, fmt.Sprintf("validation %d field %s: set %q, getter %q", i, k, want[i][k], gm[k]))
 			}
@@ -725,6 +731,7 @@ func c18Lists(r *Run, rng *Rng, mul int) {
 	c18DvCase(r, rng, 0)
 	c18DvCase(r, rng, 1)
 	c18DvCase(r, rng, 2)
+	c18DvCase(r, rng, 3)
 	c18TableCase(r, rng, true)
 	for i := 0; i < 150*mul; i++ {
 		c18DvCase(r, rng, -1)
